@@ -25,7 +25,7 @@ PAD_INPUT = z3.IntVal(-7)
 
 
 class Ctx:
-    def __init__(self, prog, unroll=10):
+    def __init__(self, prog, unroll=28):
         self.prog = prog
         self.I = MI.Interp(prog, models=[self.models, CM.map_models, CM.container_models, NM.num_models, MM.hof_models, MM.abs_models, MM.core_models], unroll=unroll, max_paths=100000)
         self.I.enum_tables.update(MM.ENUM_TABLE_EXTRA)
@@ -210,9 +210,10 @@ def run(tier, seed):
     rep.functions = ["source hashes: %s" % core.source_hashes(SRC)]
     NMAX = 3 if tier == "quick" else 5
     IDXB = 16 if tier == "quick" else 64
-    rep.bounds = {"tree_sizes": "1..%d" % NMAX, "claimed_leaves": "1..2", "path_values": "0..depth+1", "attacker_index_bound": IDXB, "loop_unroll": 12}
+    rep.bounds = {"tree_sizes": "1..%d" % NMAX, "claimed_leaves": "1..2", "path_values": "0..depth+1", "attacker_index_bound": IDXB, "loop_unroll": 28}
     rep.assumptions = [
         "the digest is collision resistant: H(x) and H(a||b) are injective uninterpreted functions with disjoint ranges (leaf encodings, the 1-byte padding input and two concatenated digests have different lengths)",
+        "no leaf encoding equals the padding input (the single byte 0x00): deployed leaves are 104 bytes long",
         "leaf encoding (as_bytes_for_merkle_tree) is injective: a leaf is identified with its bytes (for the deployed leaf type: 96-byte key || 8-byte stake)",
         "attacker-chosen indices in the soundness runs are below %d (larger indices only make the verification loop longer; the no-overflow obligation covers all of usize)" % IDXB,
         "Vec / iterator / sort semantics per std contract (mir2smt/container_models.py)",
@@ -282,6 +283,8 @@ def run(tier, seed):
                     s = st1.fork()
                     for x in idx:
                         s.assume(z3.And(x >= 0, x < IDXB))
+                    for c_ in claimed + leaves:
+                        s.assume(c_.term != PAD_INPUT)
                     fieldvals = {"values": Agg("vec", None, tuple(vals)), "indices": Agg("vec", None, tuple(idx)), "hasher": Opaque("phantom")}
                     proof = Agg("adt", "MerkleBatchPath", tuple(fieldvals[k] for k in bp_fields))
                     I.frame_counter += 1
@@ -395,7 +398,10 @@ def run(tier, seed):
             if clause == "index_overflow":
                 native["merkle_index_overflow"] = native_stm("merkle_index_overflow")
                 reproduced = native["merkle_index_overflow"].startswith("panic")
-            elif clause in ("soundness", "completeness", "empty_proof", "panic"):
+            elif clause == "empty_proof":
+                native["merkle_empty_proof"] = native_stm("merkle_empty_proof")
+                reproduced = native["merkle_empty_proof"].startswith("panic") or native["merkle_empty_proof"].startswith("accepted")
+            elif clause in ("soundness", "completeness", "panic"):
                 native["merkle_battery"] = native_stm("merkle_battery")
                 reproduced = "VIOLATED" in native["merkle_battery"]
         except Exception as e:
